@@ -618,6 +618,9 @@ pub fn parse_fasta(text: &str) -> Vec<(String, Vec<u8>)> {
             out.push((n.to_string(), Vec::new()));
         } else if let Some(last) = out.last_mut() {
             last.1.extend_from_slice(l.trim_end().as_bytes());
+        } else if !l.trim().is_empty() {
+            // text in front of the first record is not part of an alignment: it shows up as a record of its own
+            out.push(("<text before the first record>".to_string(), l.trim_end().as_bytes().to_vec()));
         }
     }
     out
